@@ -17,6 +17,19 @@ CLAIMED = {
         "termination is bounded by a watchdog (60 s, re-run at 600 s).",
         "Hypothesis grammar + soup + fault injection; crash/termination oracle with call-site bucketing",
     ),
+    "C02": (
+        "Hypothesis documents over the static CommonMark + GFM + MyST-extension syntax (recursive nesting of lists, quotes, "
+        "emphasis, links, tables, definition / field lists, divs; Unicode and punctuation soup) in three parser modes, "
+        "rendered by the docutils parser and the Sphinx parser; differential oracle against an independent reference: "
+        "the markdown-it token tree of the same text is mapped to an abstract skeleton by ~150 lines of model code, the "
+        "doctree by a generic walker, and the two (and the two front ends) must be equal - leaves once, in order, "
+        "verbatim, same nesting, destinations / uri / alt / title / list start and delimiter / cell alignment / code "
+        "language carried over; bounded search.",
+        "Dynamic syntax (directive fences, roles, footnotes, inventory links) is excluded and counted; link destinations "
+        "compared where unambiguous; highlighting off in docutils (pygments blank-line stripping is an open finding, as "
+        "is the HTML-escaped refuri).",
+        "Hypothesis grammar; differential oracle against an independent reference renderer (token tree -> skeleton)",
+    ),
     "C03": (
         "Hypothesis documents from the full grammar x valid configurations, identifier-collision documents (names from a "
         "pool that includes look-alikes of docutils' automatic ids and case variants, used by headings, targets, attribute "
